@@ -315,6 +315,31 @@ class ListingBase(Machine):
             _FRESH[key] = dict((k, v) for k, v in cnt.items() if len(set(v.values())) > 1)
         return _FRESH[key]
 
+    def other_reader(self, c):
+        """Another part of the same program opens (and keeps) a listing from a different simulator
+        and moves about in it: readers must not share state."""
+        cat = catalogue(self.tier)
+        mine = (self.rel or '').split('/')[0]
+        cand = [f for f in cat if f.split('/')[0] != mine and len(image(f)) < 450000] or cat
+        rel = cand[c % len(cand)]
+        fs = self.ctx.fs
+        fs.begin_op(None)
+        data = image(rel)
+        name = self.fs_name(rel, data)
+        fs.put(name, data)
+        try:
+            o = self.tl.t2listing(ROOT + name)
+            if o.num_fulltimes > 1:
+                o.last()
+                o.first()
+        except (SimBudgetExceeded, SimCrash, HarnessError):
+            raise
+        except Exception as e:
+            raise Violation('EXC', 'a second reader on %s raised %s' % (rel, _short_tb(e)))
+        self.others = getattr(self, 'others', [])[-2:] + [o]
+        self.ctx.probes['second_reader_of_another_simulator'] += 1
+        self.ctx.digest.add('OTHER', rel)
+
     def compare_snap(self, want, got, what, check='N1'):
         if (want[0], want[1], want[2]) != (got[0], got[1], got[2]):
             raise Violation(check + '.pos', '%s: (index, time, step) = %r, a fresh reader positioned '
@@ -390,7 +415,8 @@ def resolve_selection(lst, sel, rng):
 class NavMachine(ListingBase):
     """C07 — what a listing shows does not depend on how you navigated there."""
     PROP = 'C07'
-    OPS = ('FIRST', 'LAST', 'NEXT', 'PREV', 'INDEX', 'TIME', 'STEP', 'HISTORY', 'OPEN')
+    OPS = ('FIRST', 'LAST', 'NEXT', 'PREV', 'INDEX', 'TIME', 'STEP', 'HISTORY', 'OPEN', 'OTHER',
+           'INDEX_BAD')
 
     @classmethod
     def knobs(cls, rng, tier):
@@ -398,6 +424,8 @@ class NavMachine(ListingBase):
         w = {op: (rng.random() if rng.random() < 0.85 else 0.0) for op in cls.OPS}
         w['OPEN'] = 0.03
         w['HISTORY'] *= 0.5
+        w['OTHER'] *= 0.25
+        w['INDEX_BAD'] *= 0.2
         k['weights'] = w
         k['nops'] = rng.choice((1, 2, 3, 4, 4, 6, 10, 30))
         k['multi'] = rng.random() < 0.8       # prefer listings with >= 2 result sets
@@ -458,6 +486,34 @@ class NavMachine(ListingBase):
                 return
             self.dirty = self.dirty and kind in ('NEXT', 'PREV')
             ctx.digest.add('FAULT-NOT-FIRED', kind)
+            return
+        if kind == 'OTHER':
+            self.other_reader(ch[0])
+            return
+        if kind == 'INDEX_BAD' and not self.dirty:
+            # an index one past either end is refused (IndexError): the reader stays where it was
+            n_ = lst.num_fulltimes
+            bad = n_ if ch[0] % 2 else -(n_ + 1)
+            before_ = lst.index
+            fs = ctx.fs
+            fs.begin_op(self.op_budget)
+            try:
+                lst.index = bad
+            except IndexError:
+                ctx.probes['index_out_of_range_refused'] += 1
+            except SimBudgetExceeded as e:
+                raise Violation('LIVE', 'index = %d did not finish (%s)' % (bad, e))
+            else:
+                raise Violation('N2', 'index = %d of %d result sets was accepted' % (bad, n_))
+            got = self.snap(lst)
+            if lst.index != before_:
+                raise Violation('N2', 'refused index = %d left the reader reporting index %r '
+                                '(was %d)' % (bad, lst.index, before_))
+            self.compare_snap(self.fresh_at(self.rel, self.data, self.skip, before_), got,
+                              'after refused index = %d' % bad)
+            ctx.digest.add('INDEX_BAD', bad)
+            return
+        if kind == 'INDEX_BAD':
             return
         if getattr(self, 'dirty', False):
             if kind in ('NEXT', 'PREV', 'HISTORY'):
@@ -675,8 +731,10 @@ class HistoryMachine(ListingBase):
             r = rng.random()
             if r < 0.15:
                 ops.append(['OPEN', [R(10 ** 6), R(64)], None])
-            elif r < 0.25:
+            elif r < 0.22:
                 ops.append(['REPLACE', [R(10 ** 6), 1 + R(6)], None])
+            elif r < 0.28:
+                ops.append(['OTHER', [R(10 ** 6)], None])
             elif r < 0.45:
                 ops.append(['GOTO', [R(10 ** 6)], None])
             else:
@@ -718,6 +776,9 @@ class HistoryMachine(ListingBase):
                 lst.index = i
             self.guarded(seti, 'index = %d' % i)
             ctx.digest.add('GOTO', i)
+            return
+        if kind == 'OTHER':
+            self.other_reader(ch[0])
             return
         if kind == 'REPLACE':
             # another run replaces the file under the same name (rename-over) while this reader
@@ -765,6 +826,21 @@ class HistoryMachine(ListingBase):
             times, vals = np.asarray(times), np.asarray(vals)
             step_series = np.array([sign * self.fresh_at(self.rel, self.data, (), i)[3][tname][1][r, ci]
                                     for i in range(n)])
+            if short and any(lst._short) and not lst._table[tname].row_line:
+                # how many result sets print this row: the full ones plus every short-output set
+                # whose short table carries a row with this key (independent scan)
+                poss = list(lst._pos)
+                nshort = 0
+                for k_, is_short in enumerate(lst._short):
+                    if is_short:
+                        span = (poss[k_], poss[k_ + 1] if k_ + 1 < len(poss) else len(self.data))
+                        if any(L.table == tname and L.row == r
+                               for L in locate_rows(self.data, lst, None, span=span)):
+                            nshort += 1
+                if nshort and len(vals) == n and sum(lst._short) == nshort:
+                    raise Violation('H2.len', '%s: item %r has %d values, but the row is also '
+                                    'printed in all %d short-output result sets'
+                                    % (what, item, len(vals), nshort))
             if len(vals) == n:
                 if not np.array_equal(vals, step_series, equal_nan=True):
                     k = int(np.argwhere(~((vals == step_series) |
